@@ -264,12 +264,34 @@ def real_print(graph, target, debug, **kw):
     """(text, exception name, raw text handed to the formatter when the formatter refused it)"""
     _last_raw.pop("text", None)
     try:
-        with contextlib.redirect_stdout(io.StringIO()), warnings.catch_warnings():
-            warnings.simplefilter("ignore")
+        with contextlib.redirect_stdout(io.StringIO()), warnings.catch_warnings(record=True) as wlist:
+            warnings.simplefilter("always")
             text = graph.tostring(target, debug=debug, **kw)
+        _last_raw["warned"] = [str(w.message) for w in wlist if "does not implement" in str(w.message)]
         return text, None, None
     except Exception as ex:  # noqa: BLE001
+        _last_raw["warned"] = []
         return None, exc_name(ex), _last_raw.get("text")
+
+
+def typed_value_key(c):
+    """(declared type, value after conversion to it) of a constant expression"""
+    value, like = c.operands
+    try:
+        t = str(like.get_type())
+    except Exception:  # noqa: BLE001
+        return ("?", id(c))
+    if isinstance(value, str):
+        value = {"posinf": math.inf, "neginf": -math.inf, "nan": math.nan}.get(value, value)
+        if isinstance(value, str):
+            return (t, "name", value)
+    try:
+        dt = interp.NP_DTYPE.get(t)
+        with numpy.errstate(all="ignore"):
+            v = dt(value) if dt is not None else value
+        return (t,) + tuple(interp.canon(v))
+    except Exception:  # noqa: BLE001
+        return (t, "repr", repr(value))
 
 
 def alias_report(graph):
@@ -298,8 +320,14 @@ def alias_report(graph):
         if len(es) > 1:
             kinds = sorted(x.kind for x in es)
             if all(k == "constant" for k in kinds):
-                vals = {repr(x.operands[0]) for x in es}
-                cls = "constant-same-value-different-like" if len(vals) == 1 else "constant-different-values"
+                keys = {typed_value_key(x) for x in es}
+                likes = {k[0] for k in keys}
+                if len(keys) == 1:
+                    cls = "benign-same-typed-value"
+                elif len(likes) > 1:
+                    cls = "constant-name-ignores-like-type"
+                else:
+                    cls = "constant-different-values"
             elif any(isinstance(x.props.get("reference_name"), str) for x in es):
                 cls = "registered-name-shared" if all(isinstance(x.props.get("reference_name"), str) for x in es) else "auto-name-equals-registered-name"
             else:
@@ -308,69 +336,95 @@ def alias_report(graph):
     return out
 
 
+def prepare_graph(case, recipe_or_none, ctx, tname, target, res):
+    """trace + rewrite; returns (graph, fname) or None after filling res['status']"""
+    if recipe_or_none is not None:
+        recipe = recipe_or_none
+        try:
+            with contextlib.redirect_stdout(io.StringIO()):
+                g0 = trace_recipe(recipe, ctx)
+        except Exception as ex:  # noqa: BLE001
+            res["status"] = "unbuildable"
+            res["error"] = f"{exc_name(ex)}: {ex}"[:300]
+            return None
+        fname = recipe["name"]
+    else:
+        try:
+            with contextlib.redirect_stdout(io.StringIO()):
+                g0 = trace_shipped(tname, case["func"], case["sig"], case["index"], ctx)
+        except NotImplementedError as ex:
+            res["status"] = "skipped"
+            res["error"] = str(ex)[:200]
+            return None
+        fname = f"{case['func']}_{case['index']}"
+    try:
+        with contextlib.redirect_stdout(io.StringIO()):
+            g = g0.rewrite(target)
+            if recipe_or_none is None:
+                g = g.rewrite(rewrite)
+                g.props.update(name=fname)
+    except NotImplementedError as ex:
+        res["status"] = "rejected"
+        res["error"] = str(ex)[:200]
+        return None
+    except Exception as ex:  # noqa: BLE001
+        res["status"] = "rewrite-error"
+        res["error"] = f"{exc_name(ex)}: {ex}"[:300]
+        return None
+    return g, fname
+
+
 def run_case(case, cfg):
     res = dict(id=case["id"], kind=case["kind"])
     try:
         if case["kind"] == "history":
             return run_history(case, res)
-        if case["kind"] == "recipe":
-            recipe = case["recipe"]
-            tname = recipe["target"]
-            res["target"] = tname
-            target = getattr(targets, tname)
-            ctx = fa.Context(paths=[algorithms])
-            try:
-                with contextlib.redirect_stdout(io.StringIO()):
-                    g0 = trace_recipe(recipe, ctx)
-            except Exception as ex:  # noqa: BLE001
-                res["status"] = "unbuildable"
-                res["error"] = f"{exc_name(ex)}: {ex}"[:300]
-                return res
-            fname = recipe["name"]
-        else:
-            tname = case["target"]
-            res["target"] = tname
-            target = getattr(targets, tname)
-            ctx = fa.Context(paths=[algorithms])
-            try:
-                with contextlib.redirect_stdout(io.StringIO()):
-                    g0 = trace_shipped(tname, case["func"], case["sig"], case["index"], ctx)
-            except NotImplementedError as ex:
-                res["status"] = "skipped"
-                res["error"] = str(ex)[:200]
-                return res
-            fname = f"{case['func']}_{case['index']}"
-        try:
-            with contextlib.redirect_stdout(io.StringIO()):
-                g = g0.rewrite(target)
-                if case["kind"] == "shipped":
-                    g = g.rewrite(rewrite)
-                    g.props.update(name=fname)
-        except NotImplementedError as ex:
-            res["status"] = "rejected"
-            res["error"] = str(ex)[:200]
+        recipe = case.get("recipe") if case["kind"] == "recipe" else None
+        tname = recipe["target"] if recipe is not None else case["target"]
+        res["target"] = tname
+        target = getattr(targets, tname)
+        ctx = fa.Context(paths=[algorithms])
+        pre = None
+        if case.get("prelude") is not None:
+            # another function traced and printed FIRST in the same context (reference names persist)
+            pr = prepare_graph(case, case["prelude"], ctx, tname, target, dict())
+            if pr is not None:
+                text, err, raw = real_print(pr[0], target, 0)
+                pre = (pr[0], dict(debug=0, text=text, error=err, raw=raw))
+        got = prepare_graph(case, recipe, ctx, tname, target, res)
+        if got is None:
             return res
-        except Exception as ex:  # noqa: BLE001
-            res["status"] = "rewrite-error"
-            res["error"] = f"{exc_name(ex)}: {ex}"[:300]
-            return res
+        g, fname = got
         res["fname"] = fname
         res["status"] = "printed"
         prints = []
         for dbg in cfg.get("debugs", [0, 1]):
             text, err, raw = real_print(g, target, dbg)
             prints.append(dict(debug=dbg, text=text, error=err, raw=raw))
+            if _last_raw.get("warned"):
+                # the printer says "constant_to_target does not implement <name>": the target does not accept the graph
+                res["warned"] = _last_raw["warned"][0][:200]
         res["prints"] = prints
         # description for the model (after printing, so that describing cannot disturb the printer)
         d = Describer(tname)
+        pmap = []
+        if pre is not None:
+            d.node(pre[0])
+            pmap.append([len(d.lines), "pre"])
+            d.lines.append(d.print_line(pre[0], 0))
+            res["pre_print"] = pre[1]
         d.node(g)
-        res["plines"] = [d.print_line(g, p["debug"]) for p in prints]
-        res["nlines"] = d.lines
+        for k, p in enumerate(prints):
+            pmap.append([len(d.lines), k])
+            d.lines.append(d.print_line(g, p["debug"]))
+        res["dlines"] = d.lines
+        res["pmap"] = pmap
         res["unsupported"] = d.unsupported
         res["nnodes"] = len(d.exprs)
         res["kinds"] = sorted({e.kind for e in d.exprs})
         res["alias"] = alias_report(g)
-        if cfg.get("search", True):
+        res["nan_constant"] = any(e.kind == "constant" and isinstance(e.operands[0], float) and e.operands[0] != e.operands[0] for e in d.exprs)
+        if cfg.get("search", True) and not res.get("warned"):
             res["exec"] = cexec.prepare(case, g, target, tname, fname, prints, cfg)
         return res
     except Exception:  # noqa: BLE001
@@ -401,15 +455,24 @@ def run_history(case, res):
         f = make(k)
         f.__name__ = fname
         ctx.call(f, ())
-    out, lines = [], []
+    out, lines, overwrites = [], [], []
     for e in case["order"]:
         x = exprs[e]
+        before = dict(ctx._ref_values)
+        had = isinstance(x.props.get("ref"), str)
         try:
             r = x.ref
             out.append(r if isinstance(r, str) else "ERR returns-Expr")
         except Exception as ex:  # noqa: BLE001
+            r = None
             out.append("ERR " + exc_name(ex))
-        lines.append("\t".join(["H", str(e), x.props["origin"], x.props["reference_name"]]))
+        origin, name = x.props["origin"], x.props["reference_name"]
+        lines.append("\t".join(["H", str(e), origin, name]))
+        # no_alias on the real registry: a name handed out although it belongs to another expression
+        if isinstance(r, str) and not had and r in before and before[r] is not x:
+            overwrites.append(dict(name=r, origin=origin, asked=name,
+                                   unchecked_0=bool(origin) and r == f"_{origin}{name}_0_" and (origin + name) not in before))
+    res["overwrites"] = overwrites
     res["status"] = "history"
     res["hlines"] = lines
     res["hout"] = out
